@@ -46,7 +46,8 @@ func C29(c *core.Ctx) {
 		"options, prefix shape, overlap observed) classes; (4) crash inside drops (E2 engine): a workload child whose maintenance goroutine calls DropPrefix every 4-24 ms while " +
 		"transaction and batch clients commit is SIGKILLed at drop-phase schedule points, at persistence events of the drop's flushes/compactions and at random events; after " +
 		"re-open (twice) the commit-prefix oracle of C08 holds for the markers, every key carrying a dropped prefix is absent when its newest writer was acknowledged before a " +
-		"completed drop, holds its pre-drop value or is absent when a drop covering it overlapped the writer or never returned, and every other key equals the model")
+		"completed drop, holds its pre-drop value or is absent when a drop covering it overlapped the writer or never returned, and every other key equals the model; DropAll " +
+		"variant: phase A commits, DropAll, phase B commits - killed inside DropAll every key holds its pre-drop value or is absent, killed later nothing of phase A is visible and phase B obeys the commit-prefix oracle")
 	work := c.WorkDir()
 	defer os.RemoveAll(work)
 	c29Crash(c, work)
@@ -335,9 +336,9 @@ func c29Sequential(c *core.Ctx, work string) {
 
 // c29Crash: crashes inside DropPrefix (E2 engine, family "drops").
 func c29Crash(c *core.Ctx, work string) {
-	cfgs := []crashConfig{{"base+drops", 0, "drops", false, 4, 70}, {"snappy+drops", 1, "drops", false, 4, 70}}
+	cfgs := []crashConfig{{"base+drops", 0, "drops", false, 4, 70}, {"base+dropall", 0, "dropall", false, 4, 60}, {"snappy+drops", 1, "drops", false, 4, 70}, {"aes+dropall", 3, "dropall", false, 4, 60}}
 	if !c.Thorough() {
-		cfgs = cfgs[:1]
+		cfgs = cfgs[:2]
 	}
 	type job struct {
 		cfg       crashConfig
@@ -363,7 +364,7 @@ func c29Crash(c *core.Ctx, work string) {
 		for _, e := range si.events {
 			byClass[e]++
 		}
-		for _, cl := range []string{"pt.dropprefix.afterPrepare", "pt.dropprefix.beforeLevels", "pt.compact.afterBuild", "pt.compact.afterManifest", "pt.compact.afterReplace", "pt.compact.afterDelete", "fs.unlink.sst", "fs.append.MANIFEST", "fs.unlink.mem", "pt.flush.beforeAdd"} {
+		for _, cl := range []string{"pt.dropall.afterPrepare", "pt.dropall.afterTree", "fs.unlink.vlog", "fs.create.vlog", "pt.dropprefix.afterPrepare", "pt.dropprefix.beforeLevels", "pt.compact.afterBuild", "pt.compact.afterManifest", "pt.compact.afterReplace", "pt.compact.afterDelete", "fs.unlink.sst", "fs.append.MANIFEST", "fs.unlink.mem", "pt.flush.beforeAdd"} {
 			n := byClass[cl]
 			for k := 0; k < c.Pick(2, 12) && n > 0; k++ {
 				jobs = append(jobs, job{cfg, fmt.Sprintf("d%d-%s-%d", ci, cl, k), int64(1 + (k*n)/c.Pick(2, 12)), cl})
@@ -389,6 +390,9 @@ func c29Crash(c *core.Ctx, work string) {
 					for _, d := range si.drops {
 						if d.end == 0 {
 							inDrop = true
+							if d.all {
+								c.Count("drop.crash_cases_killed_inside_dropall", 1)
+							}
 						}
 					}
 					c.Count("drop.crash_cases", 1)
